@@ -6,6 +6,6 @@ TIER=$1; shift
 for s in "$@"; do
   lib/all_checks.sh $TIER $s > sweep-$TIER-s$s.out 2>&1
   grep -v "rc=0" sweep-$TIER-s$s.out
-  for P in $(grep -v "rc=0" sweep-$TIER-s$s.out | grep -o "C[0-9][0-9]" | sort -u); do cp /tmp/all-$P.log alarm-$P-s$s.log; done
+  for P in $(grep -v "rc=0" sweep-$TIER-s$s.out | grep -o "C[0-9][0-9]" | sort -u); do cp /tmp/all-$TIER-s$s-$P.log alarm-$P-s$s.log; done
 done
 echo sweep-done
